@@ -144,13 +144,16 @@ def parse_output(out: str) -> TLCResult:
         m = _DEPTH.search(ln)
         if m:
             res.depth = int(m.group(1))
+        if ln.startswith("The coverage statistics at"):
+            res.coverage = {}  # periodic dumps: keep the last (cumulative) one only
         m = _COV.match(ln)
         if m:
             res.coverage[m.group(1)] = res.coverage.get(m.group(1), 0) + int(m.group(4))
     res.violated = violated
     res.ok = not violated
     # anything TLC calls an error that is not a recognised verdict is a machinery failure
-    if not violated and ("Error:" in out or "*** Errors:" in out or "Exception" in out):
+    err_lines = [x for x in lines if x.startswith("Error:") or x.startswith("*** Errors:") or x.startswith("Exception in thread") or "java.lang." in x[:60]]
+    if not violated and err_lines:
         idx = out.find("Error:")
         idx = idx if idx >= 0 else max(out.find("*** Errors:"), out.find("Exception"))
         raise TLCFailure(f"TLC failure: {out[max(0, idx - 300) : idx + 2500]}")
